@@ -31,15 +31,15 @@ def dist_atom(classes=UNI_CLASSES, allow_default=True, allow_wrapper=True):
         st.fixed_dictionaries({'form': st.just('class'), 'name': st.sampled_from(classes)}),
         st.fixed_dictionaries({'form': st.just('fqn'), 'name': st.sampled_from(classes)}),
         st.fixed_dictionaries({'form': st.just('instance'), 'name': st.sampled_from(classes), 'opts': st.just({})}),
-        st.fixed_dictionaries({'form': st.just('instance'), 'name': st.just('GaussianKDE'),
+        st.fixed_dictionaries({'form': st.just('instance'), 'name': st.just('GaussianKDE'), 'positional': st.booleans(),
                                'opts': st.fixed_dictionaries({'bw_method': st.sampled_from(['scott', 'silverman', 0.2, 0.5, 1.0])})}),
     ]
     if allow_default:
         parts.append(st.fixed_dictionaries({'form': st.just('default')}))
     if allow_wrapper:
-        parts.append(st.fixed_dictionaries({'form': st.just('instance'), 'name': st.just('Univariate'),
+        parts.append(st.fixed_dictionaries({'form': st.just('instance'), 'name': st.just('Univariate'), 'positional': st.booleans(),
                                             'opts': st.fixed_dictionaries({'candidates': st.lists(st.sampled_from(FAST_CLASSES), min_size=1, max_size=3, unique=True)})}))
-        parts.append(st.fixed_dictionaries({'form': st.just('instance'), 'name': st.just('Univariate'),
+        parts.append(st.fixed_dictionaries({'form': st.just('instance'), 'name': st.just('Univariate'), 'positional': st.booleans(),
                                             'opts': st.fixed_dictionaries({'parametric': st.just('PARAMETRIC'),
                                                                            'bounded': st.sampled_from(['BOUNDED', 'UNBOUNDED', 'SEMI_BOUNDED'])})}))
     return st.one_of(*parts)
@@ -64,6 +64,13 @@ def build_dist(atom):
             opts['parametric'] = cu.ParametricType[opts['parametric']]
         if 'bounded' in opts:
             opts['bounded'] = cu.BoundedType[opts['bounded']]
+    if atom.get('positional'):
+        # the same configuration written positionally: Univariate(candidates, parametric, bounded), GaussianKDE(sample_size,
+        # random_state, bw_method) - a prototype is cloned with all its constructor arguments, however they were passed
+        if atom['name'] == 'Univariate':
+            return uni_class('Univariate')(opts.get('candidates'), opts.get('parametric'), opts.get('bounded'))
+        if atom['name'] == 'GaussianKDE':
+            return uni_class('GaussianKDE')(None, None, opts.get('bw_method'))
     return uni_class(atom['name'])(**opts)
 
 
